@@ -335,6 +335,9 @@ def run():
     import translate_tree
 
     facts["translated_tree"] = translate_tree.run()
+    import translate_hook
+
+    facts["translated_hook"] = translate_hook.run(facts.get("hook", {}).get("importRule"))
     return facts
 
 
